@@ -7,6 +7,8 @@ outside the model: named partial aspect).
 -/
 import QuantityModel.Model.Money
 import QuantityModel.Proofs.RoundingQ
+import QuantityModel.Proofs.Magnitude
+import QuantityModel.Proofs.Term
 import Mathlib.Tactic.FieldSimp
 import Mathlib.Tactic.Ring
 import Mathlib.Tactic.Linarith
@@ -115,6 +117,149 @@ theorem accepted_rate_in_normal_form (dflt : Rounding) (uc tc : Nat) (umv tav : 
           · simp at h
           · obtain ⟨a, b, c, d⟩ := rateOf_normal_form dflt uc tc umv tav _ r hum1 h
             exact ⟨a, b, c, hum1, hden', d⟩
+
+/-- an accepted rate went through the tail of the constructor with the
+magnitude of its (positive) term amount -/
+theorem mkRate_ok_rateOf (dflt : Rounding) (uc tc : Nat) (umv tav : ℚ) (isDec : Bool) (r : Rate)
+    (h : mkRate dflt uc tc (.val umv) (if isDec then .dec tav else .frac tav) = .ok r) :
+    1 ≤ umv ∧ 1 / 1000000 ≤ tav ∧ rateOf dflt uc tc umv tav (magnitude tav) = .ok r := by
+  have hacc := accepted_rate_in_normal_form dflt uc tc umv tav isDec r h
+  obtain ⟨_, _, _, hum, _, hta⟩ := hacc
+  refine ⟨hum, hta, ?_⟩
+  have hpos : ¬ tav < 0 := by linarith
+  have hnle : ¬ tav ≤ 0 := by linarith
+  have hne : tav ≠ 0 := by intro h0; rw [h0] at hta; norm_num at hta
+  have hum' : ¬ umv < 1 := not_lt.mpr hum
+  have hden : (umv.den != 1) = false := by
+    simp [(accepted_rate_in_normal_form dflt uc tc umv tav isDec r h).2.2.2.2.1]
+  unfold mkRate at h
+  split at h
+  · simp at h
+  · simp only [hden, Bool.false_eq_true, ↓reduceIte, hum'] at h
+    cases isDec
+    · simp only [Bool.false_eq_true, ↓reduceIte, hnle] at h; exact h
+    · simp only [↓reduceIte, hne, hpos] at h; exact h
+
+/-- what is stored: the term amount scaled by the new unit multiple, rounded
+to six decimals -/
+theorem stored_amount_eq (dflt : Rounding) (uc tc : Nat) (umv tav : ℚ) (isDec : Bool) (r : Rate)
+    (h : mkRate dflt uc tc (.val umv) (if isDec then .dec tav else .frac tav) = .ok r) :
+    r.termAmount = (roundQ dflt (tav * (10 : ℚ) ^ (magnitude umv - min 0 (magnitude tav + 1)) / umv
+        * 10 ^ 6) : ℚ) / 10 ^ 6 := by
+  obtain ⟨_, hta, hr⟩ := mkRate_ok_rateOf dflt uc tc umv tav isDec r h
+  rw [rateOf_eq] at hr
+  have : ¬ tav < 1 / 1000000 := not_lt.mpr hta
+  simp only [this, ↓reduceIte, Except.ok.injEq] at hr
+  subst hr
+  simp only [rpow_eq_zpow]
+
+/-- the scaled term amount before rounding is above 1/100 — above 1/10 when
+the given unit multiple is a power of ten -/
+theorem scaled_amount_bounds (umv tav : ℚ) (hum : 1 ≤ umv) (hta : 1 / 1000000 ≤ tav)
+    (hub : umv < 10 ^ 4000) (htb : tav < 10 ^ 4000) :
+    1 / 100 < tav * (10 : ℚ) ^ (magnitude umv - min 0 (magnitude tav + 1)) / umv ∧
+    (∀ j : ℕ, umv = 10 ^ j →
+      1 / 10 ≤ tav * (10 : ℚ) ^ (magnitude umv - min 0 (magnitude tav + 1)) / umv) := by
+  have hu0 : 0 < umv := by linarith
+  have ht0 : 0 < tav := by linarith
+  have h10 : (0 : ℚ) < 10 ^ 4000 := by positivity
+  have hbig : (1 : ℚ) ≤ 10 ^ 4000 := one_le_pow₀ (by norm_num)
+  have hbig' : (1 : ℚ) ≤ 10 ^ 3994 := one_le_pow₀ (by norm_num)
+  obtain ⟨ua, ub⟩ := magnitude_spec umv hu0 (one_le_mul_of_one_le_of_one_le hum hbig) hub
+  obtain ⟨ta, tb⟩ := magnitude_spec tav ht0 (by
+    have e : (10 : ℚ) ^ 4000 = 10 ^ 6 * 10 ^ 3994 := by rw [← pow_add]
+    rw [e, ← mul_assoc]
+    refine one_le_mul_of_one_le_of_one_le ?_ hbig'
+    have : (1 : ℚ) / 1000000 * 10 ^ 6 = 1 := by norm_num
+    nlinarith) htb
+  simp only [rpow_eq_zpow] at ua ub ta tb
+  set a := magnitude umv
+  set g := magnitude tav
+  have hz : (10 : ℚ) ≠ 0 := by norm_num
+  -- the part that comes from the term amount is at least 1/10
+  have hT : 1 / 10 ≤ tav * (10 : ℚ) ^ (-(min 0 (g + 1))) := by
+    by_cases hg : g + 1 ≤ 0
+    · rw [min_eq_right hg]
+      have : (10 : ℚ) ^ g * 10 ^ (-(g + 1)) = 1 / 10 := by
+        rw [← zpow_add₀ hz]; norm_num
+      have hp : (0 : ℚ) < 10 ^ (-(g + 1)) := zpow_pos (by norm_num) _
+      nlinarith
+    · rw [min_eq_left (by omega)]
+      have : (1 : ℚ) ≤ 10 ^ g := one_le_zpow₀ (by norm_num) (by omega)
+      simp only [neg_zero, zpow_zero, mul_one]
+      linarith
+  have hsplit : tav * (10 : ℚ) ^ (a - min 0 (g + 1)) / umv =
+      (tav * (10 : ℚ) ^ (-(min 0 (g + 1)))) * ((10 : ℚ) ^ a / umv) := by
+    rw [sub_eq_add_neg, zpow_add₀ hz]; ring
+  rw [hsplit]
+  constructor
+  · have hU : 1 / 10 < (10 : ℚ) ^ a / umv := by
+      rw [lt_div_iff₀ hu0]
+      have : (10 : ℚ) ^ (a + 1) = 10 ^ a * 10 := by rw [zpow_add₀ hz]; norm_num
+      rw [this] at ub
+      linarith
+    have hTp : 0 < tav * (10 : ℚ) ^ (-(min 0 (g + 1))) :=
+      mul_pos ht0 (zpow_pos (by norm_num) _)
+    nlinarith
+  · intro j hj
+    have haj : a = j := by
+      rw [hj] at ua ub
+      have h1 : (10 : ℚ) ^ a ≤ 10 ^ (j : ℤ) := by simpa using ua
+      have h2 : (10 : ℚ) ^ (j : ℤ) < 10 ^ (a + 1) := by simpa using ub
+      have := (zpow_le_zpow_iff_right₀ (by norm_num : (1 : ℚ) < 10)).mp h1
+      have := (zpow_lt_zpow_iff_right₀ (by norm_num : (1 : ℚ) < 10)).mp h2
+      omega
+    have : (10 : ℚ) ^ a / umv = 1 := by
+      rw [hj, haj, zpow_natCast]; exact div_self (by positivity)
+    rw [this, mul_one]; exact hT
+
+/-- **The stored term amount is positive** — for every accepted rate, every
+default rounding mode (directed ones included: the scaled amount is above
+1/100, far above one unit of the sixth decimal). (`< 10⁴⁰⁰⁰`: the fuel of the
+model's magnitude search.) -/
+theorem stored_amount_positive (dflt : Rounding) (uc tc : Nat) (umv tav : ℚ) (isDec : Bool)
+    (r : Rate) (hub : umv < 10 ^ 4000) (htb : tav < 10 ^ 4000)
+    (h : mkRate dflt uc tc (.val umv) (if isDec then .dec tav else .frac tav) = .ok r) :
+    0 < r.termAmount := by
+  obtain ⟨hum, hta, _⟩ := mkRate_ok_rateOf dflt uc tc umv tav isDec r h
+  rw [stored_amount_eq dflt uc tc umv tav isDec r h]
+  obtain ⟨hb, _⟩ := scaled_amount_bounds umv tav hum hta hub htb
+  set y := tav * (10 : ℚ) ^ (magnitude umv - min 0 (magnitude tav + 1)) / umv
+  have herr := roundQ_err_lt_one dflt (y * 10 ^ 6)
+  rw [abs_lt] at herr
+  have : (0 : ℚ) < roundQ dflt (y * 10 ^ 6) := by nlinarith [herr.2]
+  positivity
+
+/-- **Magnitude at least −1** (the stored term amount is at least 0.1) when the
+given unit multiple is a power of ten — the part of the statement that holds;
+for other multiples it is false (D7, below). -/
+theorem magnitude_at_least_minus_one_partial (dflt : Rounding) (uc tc : Nat) (j : ℕ) (tav : ℚ)
+    (isDec : Bool) (r : Rate) (hj : j < 4000) (htb : tav < 10 ^ 4000)
+    (h : mkRate dflt uc tc (.val (10 ^ j)) (if isDec then .dec tav else .frac tav) = .ok r) :
+    1 / 10 ≤ r.termAmount := by
+  obtain ⟨hum, hta, _⟩ := mkRate_ok_rateOf dflt uc tc _ tav isDec r h
+  rw [stored_amount_eq dflt uc tc _ tav isDec r h]
+  have hub : ((10 : ℚ) ^ j) < 10 ^ 4000 := pow_lt_pow_right₀ (by norm_num) hj
+  obtain ⟨_, hb⟩ := scaled_amount_bounds _ tav hum hta hub htb
+  have hb := hb j rfl
+  set y := tav * (10 : ℚ) ^ (magnitude ((10 : ℚ) ^ j) - min 0 (magnitude tav + 1)) / 10 ^ j
+  have herr := roundQ_err_lt_one dflt (y * 10 ^ 6)
+  rw [abs_lt] at herr
+  have h1 : ((10 ^ 5 - 1 : ℤ) : ℚ) < (roundQ dflt (y * 10 ^ 6) : ℚ) := by
+    push_cast; nlinarith [herr.2]
+  have h2 : (10 ^ 5 - 1 : ℤ) < roundQ dflt (y * 10 ^ 6) := by exact_mod_cast h1
+  have h3 : (10 ^ 5 : ℤ) ≤ roundQ dflt (y * 10 ^ 6) := by omega
+  have h4 : ((10 ^ 5 : ℤ) : ℚ) ≤ (roundQ dflt (y * 10 ^ 6) : ℚ) := by exact_mod_cast h3
+  rw [le_div_iff₀ (by positivity)]
+  push_cast at h4
+  norm_num at h4 ⊢
+  linarith
+
+/-- non-vacuity: 100 JPY = 0.00612345 EUR, given as a Fraction -/
+example : ∃ r, mkRate .ROUND_HALF_EVEN 0 1 (.val (10 ^ 2)) (.frac (612345 / 100000000)) = .ok r ∧
+    r.unitMultiple = 10000 ∧ r.termAmount = 612345 / 1000000 := by
+  refine ⟨{ unitCur := 0, termCur := 1, unitMultiple := 10000, termAmount := 612345 / 1000000 }, ?_, rfl, rfl⟩
+  decide +kernel
 
 /-- the rejection table -/
 theorem identical_currencies_rejected (d : Rounding) (c : Nat) (um : UMArg) (ta : TAArg) :
